@@ -174,12 +174,13 @@ const (
 )
 
 type world struct {
-	c       *common.Ctx
-	root    string
-	nodes   map[string]*cluster.Node // by role
-	h1, h2  *http.Client
-	hp      *hist.Runner
-	created int
+	c            *common.Ctx
+	root         string
+	nodes        map[string]*cluster.Node // by role
+	h1, h2       *http.Client
+	hp           *hist.Runner
+	created      int
+	selfSpelling int
 }
 
 func commitOne(h *hist.Runner) bool {
@@ -478,7 +479,16 @@ func (w *world) do(q apiReq, n *cluster.Node, heldID int64) (status int, err err
 	}
 	switch q.Hdr {
 	case "self":
-		req.Header.Set(lfshttp.HeaderNodeID, litefs.FormatNodeID(n.Store.ID()))
+		// the node's own id in any spelling of the same number: canonical, lower case, an extra leading zero
+		id := litefs.FormatNodeID(n.Store.ID())
+		w.selfSpelling++
+		switch w.selfSpelling % 3 {
+		case 1:
+			id = strings.ToLower(id)
+		case 2:
+			id = "0" + id
+		}
+		req.Header.Set(lfshttp.HeaderNodeID, id)
 	case "other":
 		req.Header.Set(lfshttp.HeaderNodeID, litefs.FormatNodeID(0xABCDEF))
 	case "garbage":
